@@ -24,8 +24,11 @@ from harness import _dendro as dd
 
 RULE = ('all undirected graphs with at least one edge on n <= 4 nodes (quick; thorough n <= 5), n = 3 with self-loops, sampled '
         'digraphs, 3 000 (thorough 40 000) random unweighted graphs on 7-9 nodes for Paris with degree weights (near-ties of heights), '
-        'structured weighted graphs n <= 12 (paths, cycles, stars, cliques, grids, blocks, two components, isolated '
-        'nodes, self-loops, directed kinds), all biadjacency matrices up to 2x3 and random ones x {Paris(weights, reorder), '
+        'structured graphs n <= 12 with weights 1, 2, 3 (paths, cycles, stars, cliques, grids, blocks, two components, isolated '
+        'nodes, self-loops, directed kinds), 200 (1 500) structured graphs with weights from {0.1, 1/3, 1e-3, 7, 2^24+1, 1e20, 1, 2, 2.5}, '
+        '120 (2 500) paths / stars / cycles / random graphs with one or two weights multiplied by 10^(+-20..45) (Paris), 60 (800) graphs '
+        'handed over as bool / int64 / float32 / dense / unsorted CSR / CSR with duplicate entries, refits of an already fitted estimator, '
+        'stored zero entries, all biadjacency matrices up to 2x3 and random ones x {Paris(weights, reorder), '
         'LouvainHierarchy(resolution, shuffle), LouvainIteration(depth, resolution, shuffle)}; random nested trees for '
         'get_dendrogram; random valid dendrograms for reorder_dendrogram / split_dendrogram. A case is non-trivial when the '
         'graph has at least 3 nodes and 2 edges (algorithms) or the tree / dendrogram has at least 3 leaves; distinct = '
@@ -34,7 +37,9 @@ ASSUMPTIONS = ['Louvain.fit_predict is a parameter of the Louvain tree builders 
                'np.lexsort sorts stably by (height, larger child); np.unique returns the sorted distinct labels',
                'format checks, get_probs, symmetrisation and the unit diagonal of Paris.fit are executed by the harness with '
                "the library's own helpers; the model starts at the AggregateGraph",
-               'edge weights are positive (Paris divides by the similarity)',
+               'edge weights are non-negative, at least one is positive',
+               'on this platform (x86-64, SSE2 doubles, no FMA contraction in the compiled kernel) the chain of Paris is compared bit for bit; '
+               'elsewhere the comparison would need the margins of DESIGN 8',
                'Paris is compared on IEEE doubles / floats bit for bit (Lean Float, Float32 = C double, float)']
 
 
